@@ -3,6 +3,7 @@
 #include <array>
 #include <cstdio>
 #include <cstdint>
+#include <tuple>
 #include <vector>
 #include <nop/serializer.h>
 #include <nop/protocol.h>
@@ -24,7 +25,9 @@ int main() {
   B b{};
   auto rs = d.Read(&b);
   std::printf("decoding those bytes as B: %s\n", rs ? "ok" : rs.GetErrorMessage());
-  bool trait = nop::IsFungible<A, B>::value;
+  bool tuple_trait = nop::IsFungible<std::tuple<std::int32_t[3]>, std::tuple<std::int32_t[4]>>::value;   // F-O2: same decay in the tuple / pair rules
+  std::printf("IsFungible<tuple<int32[3]>, tuple<int32[4]>> = %d\n", (int)tuple_trait);
+  bool trait = nop::IsFungible<A, B>::value || tuple_trait;
   bool fail = trait && !rs;
   std::puts(fail ? "FAIL: the trait declares the pair fungible but B cannot decode A's encoding" : "PASS");
   return fail;
